@@ -9,7 +9,8 @@ RULE = ("random operation histories over a pool of cells, slices and builders de
         "slice to_cell/copy/to_builder, hashing/order/to_boc reads); at least 30% of the operations act on an object "
         "derived from an object mutated earlier; after EVERY operation the hash, bits, references and to_boc bytes of "
         "every live cell are compared with their values at creation; plus direct constructor routes (plain bitarray, "
-        "caller-held list) and statelessness of order(); non-trivial = history with a mutation after a derivation; "
+        "caller-held list), statelessness of order(), and to_boc under all option sets in random repeated order "
+        "against a fresh equal cell; non-trivial = history with a mutation after a derivation; "
         "distinct by history text")
 TRUSTED = [
     "Coq 8.16.1 kernel; no native_compute",
@@ -177,7 +178,8 @@ def run(ctx):
             kinds[k] = kinds.get(k, 0) + 1
     ctx.extra["op_kinds"] = kinds
     # direct constructor routes and statelessness
-    for name, fn in (("plain-bitarray", plain_bitarray_case), ("order-state", order_state_case), ("repeat", repeat_case)):
+    for name, fn in (("plain-bitarray", plain_bitarray_case), ("order-state", order_state_case), ("repeat", repeat_case),
+                     ("option-history", option_history_case)):
         for _ in range(ctx.n(30, 300)):
             r = core.call_impl(lambda _: fn(rng), None)
             if r != "ok":
@@ -239,12 +241,32 @@ def repeat_case(rng):
     return "ok"
 
 
+def option_history_case(rng):
+    """to_boc under every option set, in a random order and repeated: each result must equal what a FRESH equal cell
+    (rebuilt from the same DAG) gives for that option set - results may not depend on earlier calls"""
+    opts = [(0, 0, 0), (0, 1, 0), (1, 0, 0), (1, 1, 0), (1, 0, 1), (1, 1, 1)]
+    d = cells.rand_ordinary_dag(rng, rng.choice([1, 3, 6]), share=0.4, max_bits=80)
+    c = cells.build_py(d)[-1]
+    seq = opts + opts
+    rng.shuffle(seq)
+    for o in seq:
+        got = c.to_boc(bool(o[0]), bool(o[1]), bool(o[2]))
+        want = cells.build_py(d)[-1].to_boc(bool(o[0]), bool(o[1]), bool(o[2]))
+        if got != want:
+            return f"to_boc{o} after earlier to_boc calls differs from to_boc{o} of a fresh equal cell"
+        s = c.begin_parse()
+        if s.refs:
+            s.load_ref()
+    return "ok"
+
+
 def replay(ctx, obj):
     c = obj["case"]
     if "ops" in c:
         v, bad = run_history(c["ops"])
         return bad
-    fn = {"plain-bitarray": plain_bitarray_case, "order-state": order_state_case, "repeat": repeat_case}[c["special"]]
+    fn = {"plain-bitarray": plain_bitarray_case, "order-state": order_state_case, "repeat": repeat_case,
+          "option-history": option_history_case}[c["special"]]
     for _ in range(50):
         r = core.call_impl(lambda _: fn(ctx.rng), None)
         if r != "ok":
